@@ -6,7 +6,8 @@ Model of the layer below (contracts established by C09 / C04 / C01, see `install
   Encoding<G, c>::encode(P)   writes exactly Encoding::size bytes at `this` (size from the table below, cross-checked against the IR's
                               dereferenceable(N) of `this`): ONE abstract cell holding the token Enc(G, c, P)  - bytes are an injective function of P
   Encoding<G, c>::decode      reads exactly Encoding::size bytes at `this`; on a token Enc(G, c, P) it returns true and P (decode o encode = id,
-                              checked or not); on anything else it returns a fresh uninterpreted Bool and a fresh point
+                              checked or not); on anything else the result is a fresh uninterpreted Bool: true with a fresh point, or false with
+                              the output object left as it was (reading it afterwards is a read of uninitialised memory)
   Fq12::write/read_big_endian the same with a 576-byte token
   from_projective / from_affine / pairing: engine.dom_grp (identity on formal logarithms; pairing multiplies logarithms)
 Group elements are formal symbols (engine.dom_grp.GE); equality of group elements is therefore syntactic (ground), not a solver query.
@@ -178,11 +179,14 @@ def install_codec(W):
         if isinstance(tok, Enc) and tok.g == g and tok.comp == comp:
             ge, res = tok.ge, 1
         else:
+            # arbitrary bytes: the outcome is a free Boolean (the path forks here); a failed decode guarantees nothing about the output object
             W.nfresh += 1
             ge, res = GE(g, Poly.sym("dec%d" % W.nfresh)), z3.Bool("decode_ok!%d" % W.nfresh)
-        M.write(args[1], g + "A", ge)
         I_.codec.append(("decode", g, comp, args[0].obj, args[0].off, args[2], res))
-        return res
+        if not I_.branch(res):
+            return 0
+        M.write(args[1], g + "A", ge)
+        return 1
     I.add_intercept(B + r"Encoding<.*>::encode\(.*\)", h_encode, "Encoding::encode")
     I.add_intercept(B + r"Encoding<.*>::decode\(.*\) const", h_decode, "Encoding::decode")
 
